@@ -8,10 +8,12 @@ for m in sorted(glob.glob('/verif/seeded/*/meta.json')):
 out = ["# Seeded property-breaking changes", "",
        "Each directory holds `patch.diff` (applies to /repo with `git apply`), the demonstration test (`demo_test.go.txt`), and `meta.json`.",
        "Every change compiles, keeps the repository's full test suite green and was confirmed with `scripts/seedverify.sh` in a scratch worktree",
-       "(demo fails with the change, passes without). `caught by` names the check whose quick tier reports a VIOLATION with the change applied.", "",
+       "(demo fails with the change, passes without). `caught by` names the check whose quick tier reports a VIOLATION with the change applied.",
+       "Suffixes A/B: first round (one fresh sub-agent per property), C/D: second round (another fresh sub-agent per property, asked for less obvious mechanisms:",
+       "state carried between uses, one of two cooperating sites, unused option combinations, size boundaries); `notes.md` is the seeder's own description.", "",
        "| seed | property | caught by | needs, in order to manifest |", "|---|---|---|---|"]
 for r in rows:
-    needs = r[3].replace('|', '/')
+    needs = r[3].replace('|', '/').replace('\n', ' ')[:500]
     out.append(f"| {r[0]} | {r[1]} | {r[2]} | {needs} |")
 missed = [r for r in rows if r[2] == 'MISSED']
 out += ["", f"{len(rows)} changes, {len(rows)-len(missed)} caught, {len(missed)} not caught."]
